@@ -21,7 +21,13 @@ pub fn plan(tier: &str, seed: u64) -> Vec<Batch> {
     let mut v = Vec::new();
     for uni in [UniCfg::k(), UniCfg::e()] {
         for i in 0..warm {
-            v.push(Batch { check: "C16".into(), phase: "warm".into(), uni: uni.clone().workers(4), seed, lo: i * PER_BATCH, hi: (i + 1) * PER_BATCH, fresh: false, tier: tier.into(), extra: Value::Null });
+            // every eighth batch in a mount namespace without /proc: the errno and description of a
+            // failure must not depend on the library being able to pretty-print descriptors
+            let mut u = uni.clone().workers(4);
+            if i % 8 == 7 {
+                u.proc_opts = "absent".into();
+            }
+            v.push(Batch { check: "C16".into(), phase: "warm".into(), uni: u, seed, lo: i * PER_BATCH, hi: (i + 1) * PER_BATCH, fresh: false, tier: tier.into(), extra: Value::Null });
         }
         // fresh processes: the error table, the id generator and their
         // entropy are initialised inside the racing calls
